@@ -191,7 +191,7 @@ TEXT = {
  "C08": {"technique": "property-based testing (rapid, stateful chain generation with hostile entries) against the real sync loop; oracle = terminates at the tip",
          "level_text": "Exploration: each run syncs hundreds of generated chains carrying hostile entries through the unmodified DBlockSync and requires it to reach the tip; a panic, log.Fatal or a height that fails 4 times in a row is a violation with a shrunk replay chain. Liveness is decided per generated input within a budget, never for all inputs.",
          "level_note": "Trusted: fake factomd (serves well-formed dblocks/eblocks for whatever entries the case contains), Go/SQLite, grader modules. Eras: PegNet 2.0.2+ rules; legacy-era hostile batches are covered by the C16 generator. Rates >= 2^63 are a registered known finding and excluded from the search."},
- "C20": {"technique": "property-based testing (rapid grammar mutation of batch JSON; differential against an independent strict acceptor + round trip; big-decimal oracle for amounts)",
+ "C20": {"technique": "property-based testing and native go fuzzing (rapid grammar mutation of batch JSON; differential against an independent strict acceptor, against the real entry constructor with a proper signature, + round trip; big-decimal oracle for amounts)",
          "level_text": "Exploration at function level: tens of thousands (quick) to millions (thorough) of generated batch texts and amount strings per run against explicit oracles.",
          "level_note": "Accepted means UnmarshalJSON+ValidData+int64 bound (the signature check is C05's). Key case is a don't-care (Go's decoder folds case; the statement lists duplicate/unknown keys). The empty amount string is outside the stated domain."},
  "C19": {"technique": "property-based testing (rapid session histories executed for real) against a reference refusal predicate; exhaustive small scope in thorough",
@@ -206,16 +206,16 @@ TEXT = {
  "C09": {"technique": "property-based testing (rapid chains x restart sets); differential continuous run vs restarted run of the real daemon",
          "level_text": "Exploration: each case syncs the same chain twice through the real daemon, once continuously and once with clean restarts, and compares the complete ledger dumps.",
          "level_note": "Ungraded heights inside the PIP-10 window are a registered known finding (restart changes conversion amounts) and are excluded from the search; its probe reproduces it deterministically."},
- "C06": {"technique": "property-based testing (rapid placement of repeated entries); metamorphic relation between the chain with k copies and the k+1 chains with one/no copy, all run through the real daemon",
+ "C06": {"technique": "property-based testing (rapid placement of repeated entries); metamorphic relation between the chain with k copies and the k+1 chains with one/no copy, all run through the real daemon; invariant over the SQL statement history (one verdict and one outcome per held transaction)",
          "level_text": "Exploration: each case costs 3-6 full syncs of the real daemon; the relation accepts any single copy executing because the statement does not say which.",
          "level_note": "Depends on the fix for C08/dup-history (without it the daemon wedges on the second copy and C06 cannot be observed; the check then skips and says so)."},
  "C05": {"technique": "property-based testing (rapid mutation of valid signed entries); metamorphic chain differential (with/without the tampered entry) + differential against an independent FAT-103 validator",
          "level_text": "Exploration: hundreds (quick) to thousands (thorough) of tampered entries pushed through the real block pipeline, plus tens of thousands of validator comparisons.",
          "level_note": "Flips of the RCD-e recovery byte are a registered known finding (probe reproduces a second debit) and excluded from the search. Trusted: ed25519 / secp256k1 implementations."},
- "C10": {"technique": "fault injection enumerated over every upstream request and SQL statement of generated chains (rapid chooses chains, samples and pairs); differential against the fault-free run of the real daemon",
+ "C10": {"technique": "fault injection enumerated over every upstream request and SQL statement of generated chains (rapid chooses chains, samples stratified by call site, and pairs); differential against the fault-free run of the real daemon",
          "level_text": "Fault enumeration: the thorough tier fails every single upstream request and SQL statement of 16 generated chains in turn (about 1,800 sites per chain) and 40 pairs per chain; quick samples 60 sites per chain on 8 chains.",
          "level_note": "Faults are injected by ordinal in the fake factomd (RoundTripper) and in a wrapping database/sql driver; entry fetches run on 8 workers, so the ordinal of an entry request names 'some entry of that block'. The call site NullifyBurnAddress is a registered known finding (its result is discarded by design and cannot be propagated without halting mainnet); faults there are counted, not reported."},
- "C02": {"technique": "crash-point enumeration (SIGKILL of a child daemon at every SQL call, before/after; injected statement failure) over rapid-generated chains; prefix-state equality and resume equality against a reference run",
+ "C02": {"technique": "crash-point enumeration (SIGKILL of a child daemon at every SQL call, before/after; injected statement failure; graceful stop = cancelled context) over rapid-generated chains; prefix-state equality and resume equality against a reference run",
          "level_text": "Fault enumeration: thorough kills a real daemon process at every SQL call (before and after, about 5,000 points per chain incl. the error mode) of 16 generated chains in both journal modes; quick samples 40 points per chain on 8 chains with the calls around COMMIT always included.",
          "level_note": "SIGKILL models process death, not power loss (the OS page cache survives). Child databases live on real disk under /verif/.build and are removed after each point. Statement failures inside NullifyBurnAddress are a registered known finding of C10 (error swallowed by design) and excluded from the 'a block fails' mode."},
  "C18": {"technique": "property-based testing of schedules (rapid chooses pause points at SQL-call granularity and API calls against the real server); differential vs. run without API load and vs. per-height committed states; race-detector soak",
@@ -246,7 +246,7 @@ TEXT = {
  "C16": {"technique": "model-based property testing of the legacy PEG bank (allocation, refund, bank rows) across the V4 fork",
          "level_text": "Exploration over request multisets around the bank size.",
          "level_note": "Batches mixing a PEG request with other transactions are a registered known finding (double crediting / wedge) and excluded."},
- "C17": {"technique": "model-based property testing (status/amount equality) + history-replay invariant + paging exactly-once through the real API server",
+ "C17": {"technique": "model-based property testing (status/amount equality) + history-replay invariant + paging exactly-once (any offset) and field-by-field agreement through the real API server",
          "level_text": "Exploration over all eras with three independent oracles per chain.",
          "level_note": "Batches lost by C11/band-early-return and conversions that stay pending for ever (unconvertible amounts) are registered known findings with probes; chains containing blocks outside the model's specification skip the replay oracle (counted)."},
 }
